@@ -24,6 +24,12 @@ def gen_case(seed: int, tier: str, index: int, base_gen) -> Dict[str, Any]:
     cfg["early"] = rng0.random() < 0.35        # partial updates that reach the client while its handshake is still in progress
     cfg["early_recs"] = [[[rng0.choice([275, 300, 301, 400, 600, 1000]), rng0.getrandbits(16)]] for _ in range(rng0.randint(1, 4))]
     cfg["sched"] = {"cost_p": 0.2, "cost_max": 0.002}
+    rng2 = random.Random(mix(seed, "c05t.second"))
+    if rng2.random() < 0.35:
+        # a second blocking client in the same process, connected to the same spa (an application with two connections): each applies its
+        # own copies of the partial updates; their engine threads (only those) are pre-empted at line level inside the update path
+        cfg["second_client"] = True
+        cfg["sched"].update(preempt_p=rng2.choice([0.05, 0.2, 0.5]), preempt_files=["/spa.py", "statusblock.py"], preempt_threads=["_thread_func"])
     rng = random.Random(mix(seed, "c05t"))
     cfg["tables"] = {"idle": {"PING_FREQUENCY_IN_SECONDS": rng.choice([2, 5, 60]), "PROTOCOL_TIMEOUT_IN_SECONDS": rng.choice([1, 2]),
                               "PING_DEVICE_NOT_RESPONDING_TIMEOUT_IN_SECONDS": 600, "FACADE_UPDATE_FREQUENCY_IN_SECONDS": 30}}
@@ -53,6 +59,21 @@ def scenario(world: WorldT) -> None:
         writes.append((world.log.add("install", offset, len(segment)), offset, bytes(segment), spa.struct.status_block))
         return orig(offset, segment)
     spa.struct.replace_status_block_segment = wrapped
+    preempt_p, world.sched.preempt_p = world.sched.preempt_p, 0.0       # (pre-emption starts once the connections stand)
+    spa2 = None
+    writes2: List[Any] = []
+    if cfg.get("second_client"):
+        spa2 = GeckoSpa(GeckoSpaDescriptor(b"IOSverif-T2", b"SPA01:02:03:04:05:06", "Udp Test Spa", (SPA_IP, SPA_PORT)))
+        orig2 = spa2.struct.replace_status_block_segment
+
+        def wrapped2(offset, segment):
+            writes2.append((world.log.add("install2", offset, len(segment)), offset, bytes(segment), spa2.struct.status_block))
+            return orig2(offset, segment)
+        spa2.struct.replace_status_block_segment = wrapped2
+        spa2.start_connect()
+        if not world.wait_until(lambda: spa2._is_connected, 44):
+            raise HarnessError("second blocking client did not connect on a healthy network")
+        res.probe("two_blocking_clients_in_one_process")
     spa.start_connect()
     if cfg.get("early"):
         # someone presses a button on the spa while the client is still connecting: partial updates arrive during the handshake
@@ -71,6 +92,9 @@ def scenario(world: WorldT) -> None:
         raise HarnessError("blocking client did not connect on a healthy network")
     # the spa learns its clients from pings
     world.wait_until(lambda: bool(model._clients), 30)
+    if spa2 is not None:
+        world.wait_until(lambda: len(model._clients) >= 2, 70)
+    world.sched.preempt_p = preempt_p
     world.net.healed = res.faultfree
     base = world.now()
     for op in world.case["plan"]:
@@ -153,6 +177,25 @@ def scenario(world: WorldT) -> None:
         else:
             cls, what = "out-of-order-change", f"first difference at #{k}: applied {partial[k]}, arrival order has {expected[k]}"
         world.violate(PROP, cls, f"{label} partial updates applied differ from arrival order: {what}")
+    if spa2 is not None:
+        world.sched.preempt_p = 0.0
+        local2 = spa2._socket.local
+        arr2 = sorted(((es, r) for r in world.net.history if r.dst == local2 and r.verb == "STATP" for es, t in r.deliveries), key=lambda x: x[0])
+        exp2 = []
+        for es, r in arr2:
+            exp2.extend(decode_statp(inner_of(r.data)))
+        part2 = [(o, sg) for (_, o, sg, _) in writes2 if len(sg) <= 2]
+        if part2 != exp2:
+            k = 0
+            while k < min(len(part2), len(exp2)) and part2[k] == exp2[k]:
+                k += 1
+            cls = "extra-or-replayed-change" if (len(part2) > len(exp2) or (k < len(part2) and part2[k] not in exp2[k:])) else ("dropped-change" if len(part2) < len(exp2) else "out-of-order-change")
+            world.violate(PROP, cls, f"[blocking, second client of the process] partial updates applied differ from what arrived at its endpoint: {len(exp2)} changes "
+                          f"arrived, {len(part2)} applied, first difference at #{k}")
+        acks2 = [r for r in world.net.history if r.src == local2 and r.verb == "STATQ"]
+        if len(acks2) != len(arr2):
+            world.violate(PROP, "ack-count", f"[blocking, second client of the process] {len(arr2)} partial-update messages arrived, {len(acks2)} acknowledgements sent")
+        spa2.complete()
     # order against refreshes: a record that arrived before the final segment of a chain is applied before that chain is installed
     statv_rx = sorted(es for r in world.net.history if r.dst == local and r.verb == "STATV" for es, t in r.deliveries)
     big = [(seq, o, len(sg)) for (seq, o, sg, _) in writes if len(sg) > 2]
